@@ -230,6 +230,99 @@ pub fn run_val_family(ctx: &Ctx, fam: &ValFamily) -> Stats {
     if fw::should_stop() {
         return total;
     }
+    // ---- adjacent pairs: (valid character, near-valid sequence) in both orders for the byte
+    // functions; two boundary code units at stride-relevant distances for the UTF-16 functions
+    let thorough = ctx.tier == fw::Tier::Thorough;
+    let near = memgen::utf8_near_valid(thorough);
+    let reps = memgen::utf8_valid_reps();
+    let layouts16 = memgen::pair_layouts16();
+    let st = par_run(ctx, nf * LANES, |part, st| {
+        let f = fam.fns[part / LANES];
+        let lane = part % LANES;
+        let mut rn = VRunner::new();
+        let mut k = 0usize;
+        let mut run = |c: VCase, st: &mut Stats| -> bool {
+            st.evals += 1;
+            st.nontrivial_distinct();
+            if let Some(m) = rn.judge(&c) {
+                let min = shrink(&c);
+                let m2 = rn.judge(&min).unwrap_or(m);
+                st.violations.push(violation(&min, m2));
+                return false;
+            }
+            true
+        };
+        if f.is_u16() {
+            for (ai, &a) in memgen::UNIT_EDGES16.iter().enumerate() {
+                if ai % LANES != lane {
+                    continue;
+                }
+                for &b in memgen::UNIT_EDGES16.iter() {
+                    for &(p, d, t) in &layouts16 {
+                        k += 1;
+                        let c = VCase { f, src8: vec![], src16: memgen::embed_pair16(a, b, p, d, t), align: fam.aligns[k % fam.aligns.len()], force_scalar: fam.force_scalar };
+                        st.class("two-boundary-units-at-stride-relevant-distance");
+                        if !run(c, st) {
+                            return;
+                        }
+                    }
+                }
+                if fw::should_stop() {
+                    return;
+                }
+            }
+        } else {
+            // table sweep: every (lead, second) pair, every three-byte string, four-byte leads
+            let mut src = Vec::with_capacity(64);
+            let ok = memgen::utf8_table_sweep(lane, LANES, |s| {
+                for (pre, tail) in [(0usize, 1usize), (15, 17)] {
+                    k += 1;
+                    src.clear();
+                    src.extend((0..pre).map(|i| b'a' + (i % 26) as u8));
+                    src.extend_from_slice(s);
+                    src.extend((0..tail).map(|i| b'A' + (i % 26) as u8));
+                    let mut c = VCase { f, src8: src.clone(), src16: vec![], align: fam.aligns[k % fam.aligns.len()], force_scalar: fam.force_scalar };
+                    c.sanitise();
+                    st.class("utf8-table-sweep");
+                    if !run(c, st) {
+                        return false;
+                    }
+                }
+                !(k % 4096 == 0 && fw::should_stop())
+            });
+            if !ok {
+                return;
+            }
+            for (ni, s) in near.iter().enumerate() {
+                if ni % LANES != lane {
+                    continue;
+                }
+                if fw::should_stop() {
+                    return;
+                }
+                for a in &reps {
+                    for &(pre, tail) in &memgen::PAIR_EMBED {
+                        for order in 0..2 {
+                            k += 1;
+                            let src8 = if order == 0 { memgen::embed_pair8(a, s, pre, tail) } else { memgen::embed_pair8(s, a, pre, tail) };
+                            let mut c = VCase { f, src8, src16: vec![], align: fam.aligns[k % fam.aligns.len()], force_scalar: fam.force_scalar };
+                            c.sanitise();
+                            st.class("valid-character-adjacent-to-near-valid-sequence");
+                            if !run(c, st) {
+                                return;
+                            }
+                        }
+                    }
+                }
+            }
+        }
+    });
+    total.merge(st);
+    total.exhaustive.push("byte functions: every (lead, second byte) pair, every three-byte string with lead E0..EF, every F0..F7 x second x third x {80,BF,41}, F0..F4 x boundary seconds x {80,BF} x every fourth byte - each alone and behind 15 ASCII bytes".into());
+    total.exhaustive.push(format!("byte functions: {} valid characters (corners of every lead class's trail ranges) x {} near-valid sequences (every lead class x boundary trail bytes) x both orders x {} ASCII embeddings; UTF-16 functions: all pairs of {} boundary code units x {} (position, distance, tail) layouts", reps.len(), near.len(), memgen::PAIR_EMBED.len(), memgen::UNIT_EDGES16.len(), layouts16.len()));
+    if fw::should_stop() {
+        return total;
+    }
     let st = par_run(ctx, nf * 2, |part, st| {
         let f = fam.fns[part / 2];
         let strat = (proptest::collection::vec((any::<u8>(), any::<u32>(), any::<u8>()), 0..=fam.max_tokens), any::<u8>()).prop_map(move |(toks, al)| {
